@@ -1166,9 +1166,9 @@ class Converter:
         live_defs = sorted(live_def_set)
         test = self._translate_expr(stmt.test, "cond")
         lineno = self._source_of(stmt).lineno
-        then_graph = self._translate_block(stmt.body, f"thenGraph_{lineno}", live_defs)
+        then_graph = self._translate_block(stmt.body, f"thenGraph_{lineno}", live_defs, stmt)
         then_attr = ir.AttrGraph("then_branch", then_graph)
-        else_graph = self._translate_block(stmt.orelse, f"elseGraph_{lineno}", live_defs)
+        else_graph = self._translate_block(stmt.orelse, f"elseGraph_{lineno}", live_defs, stmt)
         else_attr = ir.AttrGraph("else_branch", else_graph)
 
         def rename(x):
@@ -1373,8 +1373,9 @@ class Converter:
         stmts: Sequence[ast.stmt],
         name: str,
         live_defs: Sequence[str],
+        parent: ast.stmt,
     ) -> ir.Graph:
-        """Translation of a then/else statement-block to an ir.Graph."""
+        """Translation of a then/else statement-block of the statement `parent` to an ir.Graph."""
         self._enter_scope(name, None)
         for s in stmts:
             self._translate_stmt(s)
@@ -1402,7 +1403,8 @@ class Converter:
                         break
                 if python_var_value is None:
                     self._fail(
-                        stmts[0],
+                        # The block is empty when the else-branch is missing.
+                        stmts[0] if stmts else parent,
                         f"ir.Value {python_var} is not assigned a value along a conditional "
                         f"branch, known variables: {list(self._locals)}.",
                     )
